@@ -33,7 +33,7 @@ if missing and '--retry' in sys.argv and len(missing) <= 6:
         parts = m.split('::')
         test = '::'.join(parts[1:]) if not parts[1].startswith('bin/') and '/' not in parts[1] else '::'.join(parts[2:])
         ok = False
-        for _ in range(2):
+        for _ in range(6):
             rr = subprocess.run(['cargo', 'nextest', 'run', '--workspace', '--offline', '--tool-config-file', 'pb:/w/lib/nextest.toml', '--profile', 'pb', '--test-threads', '1', '-E', 'test(=%s)' % test],
                                 cwd=repo, capture_output=True, text=True)
             if rr.returncode == 0 and ' 1 passed' in (rr.stdout + rr.stderr):
